@@ -111,6 +111,9 @@ fn random_string_literal(r: &mut Rng) -> String {
 }
 
 fn one_doc(ctx: &mut Ctx, src: &str, all_cfgs: bool) {
+    // CST → AST conversion against its Lean model (stream c08.fromcst), valid or not, and broken variants
+    crate::pfromcst::case(ctx, src);
+    if ctx.rng.chance(1, 2) { crate::pfromcst::broken_variants(ctx, src); }
     let doc = match catch(|| ast::Document::parse(src.to_string(), "d.graphql")) {
         Ok(Ok(d)) => d,
         Ok(Err(_)) => { ctx.stat("skipped_syntax_error"); return }
